@@ -118,6 +118,27 @@
         final(self).run == old(self).run, final(self).cert == old(self).cert,
         final(self).processor == old(self).processor,
         final(self).repository_index == old(self).repository_index,
+//@ fn CaCert::uri
+//@ spec
+    ensures res == &self.uri,
+//@ fn CaCert::rpki_manifest
+//@ spec
+    ensures res == &self.rpki_manifest,
+//@ fn CaCert::rpki_notify
+//@ spec
+    ensures res == self.cert.rpki_notify_spec(),
+//@ fn RunFailed::fatal
+//@ spec
+    ensures res == (RunFailed { fatal: true }),
+//@ fn RunFailed::retry
+//@ spec
+    ensures res == (RunFailed { fatal: false }),
+//@ fn RunFailed::is_fatal
+//@ spec
+    ensures res == self.fatal,
+//@ fn RunFailed::should_retry
+//@ spec
+    ensures res == !self.fatal,
 //@ global
 // Helper precondition (not part of the property): every counter has room for `k` more steps.
 // The counters of a publication point start at 0 and each validation function is called at
